@@ -272,8 +272,8 @@ def _ascii_loose_uri(s, pattern=False):
     left to C08Uri)"""
     if type(s) is not str:
         return False
-    if any(ord(c) < 33 or c == "#" or ord(c) == 127 for c in s):
-        return False                 # ASCII whitespace / control characters and '#' are never part of a URI
+    if any(ord(c) in (9, 10, 11, 12, 13, 28, 29, 30, 31, 32) or c == "#" for c in s):
+        return False                 # whitespace (Python `\\s` on the ASCII range) and '#' are never part of a loose URI
     if any(ord(c) > 126 for c in s):
         return None                  # outside the ASCII core: judged by the URI part (C08Uri)
     comps = s.split(".")
